@@ -99,12 +99,12 @@ class JoinContainer(EdgesBag):
         key_output = Node(key_name, details)
         edges.extend(_chain_edges(
             [inp, mapping], left_key,
-            FunctionEdge(id_maker(0), 2),
+            FunctionEdge(id_maker(0, how), 2),
             HashBarrier(),
         ))
         edges.extend(_chain_edges(
             [inp, mapping], right_key,
-            FunctionEdge(id_maker(1), 2),
+            FunctionEdge(id_maker(1, how), 2),
             HashBarrier(),
         ))
         edges.append(
@@ -290,12 +290,15 @@ def ids_maker(how):
     return ids
 
 
-def id_maker(index):
+def id_maker(index, how=JoinMode.outer):
+    # the entries present on one side only are a part of the join only if the mode selects this side
+    one_sided = how in ([JoinMode.left, JoinMode.outer] if index == 0 else [JoinMode.right, JoinMode.outer])
+
     def key(i, mappings):
         inner, *rest = mappings
         if i in inner:
             return inner[i][index]
-        if i in rest[index]:
+        if one_sided and i in rest[index]:
             return rest[index][i]
 
         raise KeyError(f'Key "{i}" not found')
